@@ -811,7 +811,17 @@ def main():
                     and node.left.func.id == 'len' and isinstance(node.comparators[0], ast.Constant):
                 return node.comparators[0].value
             return None
-        return single(find_in_source(os.path.join(REPO, 'pyais/stream.py'), pred), 'len(line) <= N')
+        vals = find_in_source(os.path.join(REPO, 'pyais/stream.py'), pred)
+        if len(set(vals)) == 1:
+            return vals[0]
+        # the source is not of the recognised shape (e.g. the test is written the other way round): look at the
+        # running code - which lengths of a line that starts with '!' does the pre-filter of the stream readers let
+        # through?  It must be a threshold.
+        passed = sorted(len(l) for l in S.ByteStream([b'!' + b'x' * (n - 1) for n in range(1, 80)])._iter_messages())
+        if not passed or passed != list(range(passed[0], 80)):
+            raise ValueError('the length filter of Stream._iter_messages is not a threshold: %r' % (passed[:10],))
+        PROBED.append('stream minimum line length (len(line) <= N not found in stream.py)')
+        return passed[0] - 1
 
     const_nat('STREAM_MIN_LEN', min_line_len)
 
